@@ -39,6 +39,8 @@ def slice_block():
     return block, first_line, last_line
 
 
+PATHS = ["-Z", "unstable-options", "--cbmc-args", "--paths", "lifo"]
+
 PRELUDE = '''// C20 — generated: the favored-rotation block of get_or_cache_sorted_candidates_for_version_set,
 // spliced verbatim (lines %d-%d of src/solver/cache.rs) into a function over the two values it uses.
 use crate::SolvableId;
@@ -54,23 +56,42 @@ fn sliced(candidates: &Cands, sorted_candidates: &mut Vec<SolvableId>) {
     // ---- verbatim slice ends ----
 }
 
-/// L distinct symbolic ids; `mode`: 0 = no favored candidate, 1 = favored not in the list, 2 = favored at POS
-fn case<const L: usize>(mode: u8, pos: usize) {
+/// L pairwise distinct symbolic ids; the favored candidate is symbolic too: absent (None), an id that is
+/// not in the list, or the element at a symbolic position.  Decided with CBMC's path-based symbolic
+/// execution (--paths lifo): on each path `position()` has a concrete result, so rotate_right runs with a
+/// concrete range while the ids stay symbolic (with the default merged-state symex a symbolic rotation
+/// range runs out of memory even for two elements, DESIGN P16).
+fn case<const L: usize>() {
     let mut ids = [SolvableId(0); L];
     let mut v: Vec<SolvableId> = Vec::with_capacity(L);
     let mut i = 0;
-    // ids = base, base+1, ... for a symbolic base (wrapping): pairwise distinct by construction, and CBMC's
-    // simplifier can decide `base+i == base+j` syntactically, which keeps the rotation position concrete
-    // (a symbolic position under rotate_right runs out of memory even for two elements)
-    let base: u32 = kani::any();
     while i < L {
-        ids[i] = SolvableId(base.wrapping_add(i as u32));
+        let x: u32 = kani::any();
+        ids[i] = SolvableId(x);
+        let mut j = 0;
+        while j < i {
+            kani::assume(ids[j] != ids[i]);
+            j += 1;
+        }
         v.push(ids[i]);
         i += 1;
     }
+    let mode: u8 = kani::any();
+    kani::assume(mode < 3);
+    let pos: usize = kani::any();
+    kani::assume(pos < L || (L == 0 && pos == 0));
+    kani::assume(mode != 2 || L > 0);
     let favored = match mode {
         0 => None,
-        1 => Some(SolvableId(base.wrapping_add(L as u32 + 7))),
+        1 => {
+            let f = SolvableId(kani::any());
+            let mut j = 0;
+            while j < L {
+                kani::assume(ids[j] != f);
+                j += 1;
+            }
+            Some(f)
+        }
         _ => Some(ids[pos]),
     };
     let c = Cands { favored };
@@ -92,7 +113,10 @@ fn case<const L: usize>(mode: u8, pos: usize) {
             k += 1;
         }
     }
-    kani::cover!(L < 2 || ids[1] == SolvableId(0), "ids wrap around u32::MAX");
+    kani::cover!(mode == 0, "no favored candidate");
+    kani::cover!(mode == 1, "favored candidate not in the list");
+    kani::cover!(L == 0 || (mode == 2 && pos == L - 1), "favored candidate last");
+    kani::cover!(L == 0 || (mode == 2 && pos == 0), "favored candidate already first");
     std::mem::forget(v);
 }
 
@@ -114,31 +138,28 @@ def build(tier):
     block, l0, l1 = slice_block()
     text = PRELUDE % (l0, l1, block.replace("\n", "\n    "))
     hs = []
-    tw = Harness("c20_twin_must_fail", bounds="vacuity twin", expect="fail", timeout=600, group="c20")
+    tw = Harness("c20_twin_must_fail", bounds="vacuity twin", expect="fail", timeout=600, group="c20", extra_args=PATHS)
     tw.group_file = SRC
     hs.append(tw)
     maxl = 4 if tier == "quick" else 6
     for L in range(0, maxl + 1):
-        modes = [(0, 0, "none"), (1, 0, "absent")] + [(2, p, "at%d" % p) for p in range(L)]
-        for mode, pos, tag in modes:
-            name = "c20_len%d_%s" % (L, tag)
-            text += "\n#[kani::proof]\n#[kani::unwind(10)]\nfn %s() {\n    case::<%d>(%d, %d);\n}\n" % (name, L, mode, pos)
-            what = {0: "no favored candidate", 1: "favored candidate not among the sorted candidates", 2: "favored candidate at position %d" % pos}[mode]
-            h = Harness(name, bounds="sorted list of %d SolvableIds base, base+1, ... (wrapping) for every u32 base; %s" % (L, what),
-                        symbolic=["base of the id progression (all 2^32 values)"],
-                        enumerated=["list length %d" % L, what], min_covers=1, timeout=900, mem_gb=12, group="c20_rot",
-                        instance={"len": L, "favored": tag})
-            h.group_file = SRC
-            hs.append(h)
+        name = "c20_len%d" % L
+        text += "\n#[kani::proof]\n#[kani::unwind(12)]\nfn %s() {\n    case::<%d>();\n}\n" % (name, L)
+        h = Harness(name, bounds="sorted list of %d pairwise distinct symbolic SolvableIds (any u32); favored: None, an id not in the list, or the element at any position (symbolic)" % L,
+                    symbolic=["candidate ids", "favored: none / absent / position"], enumerated=["list length %d" % L],
+                    min_covers=4 if L > 0 else 4, timeout=3600, mem_gb=16, group="c20_rot",
+                    extra_args=PATHS, instance={"len": L})
+        h.group_file = SRC
+        hs.append(h)
     return text, hs, (l0, l1)
 
 
 ASSUMPTIONS = [
     "the block `if let Some(favored_id) = candidates.favored { ... }` is extracted verbatim from /repo's current src/solver/cache.rs by brace matching and spliced into a function over (candidates.favored, sorted_candidates); if it cannot be located the check is inconclusive",
-    "Kani 0.68 / CBMC 6.11 on that function compiled inside the resolvo crate; list length and the favored position are enumerated, and the ids form the progression base, base+1, ... with a symbolic u32 base: arbitrary pairwise-distinct symbolic ids make the position computed by `position()` symbolic, and rotate_right with a symbolic position runs out of memory even for 2 elements (DESIGN P16)",
+    "Kani 0.68 / CBMC 6.11 on that function compiled inside the resolvo crate, with CBMC's path-based symbolic execution (`--cbmc-args --paths lifo`): every path is decided by the SAT solver separately and all paths are explored; list length is enumerated, ids and the favored choice/position are symbolic",
     "NOT decided: partitioning by filter_candidates, sort order, idempotence/caching and the availability query (async fns over FrozenMap/FrozenCopyMap/Event/BitVec, DESIGN R1)",
 ]
-RULE = "one evaluation = one CBMC property decided SUCCESS in a SUCCESSFUL harness; instances = list length x {no favored, favored absent, favored at each position}; non-trivial = cover witness SATISFIED"
+RULE = "one evaluation = one CBMC property decided SUCCESS in a SUCCESSFUL harness; instances = list lengths; non-trivial = all four cover witnesses (no favored / absent / favored last / favored first) SATISFIED"
 
 
 def run(tier, seed, only):
